@@ -36,6 +36,7 @@ struct Under {
   std::function<XY(Lat, Q)> defect_image;               // what Forward returns if (and only if) the defect is what we see
   std::function<Q(Lat)> defect_k;
   bool defect_in_reverse = false;                       // the defect also affects Reverse (then Reverse-only predicates carry the field too)
+  double pole_pair = 0;                                 // +-90: AlbersEqualArea built from that pole plus a DIFFERENT second standard parallel (incl. after SetScale)
   bool defect_blanket = false;                          // the object was BUILT through the defective call (SetScale evaluating a defective Forward): every failure carries the field
 };
 struct Oracle {
@@ -85,9 +86,9 @@ static void check_projection(Ctx& ctx, const Ell& E, const Under& U, const Oracl
     try { sg = mc::crashed([&] { U.fwd(lon0, lat, lon, x, y, gam, k); }); } catch (const std::exception& e) { FAIL("fwd-exception", e.what()); continue; }
     if (sg) { FAIL("fwd-crash", "signal " + fmti(sg)); continue; }
     if (!(std::isfinite(x) && std::isfinite(y) && std::isfinite(gam) && std::isfinite(k))) {
-      // open finding: AlbersEqualArea with a pole as one of two different standard parallels on a prolate ellipsoid: Forward at that pole returns NaN
-      const bool res = !O.conformal && E.f < 0 && std::fabs(lat) == 90 && O.rho0 == 0 && stdlats.size() == 2 && stdlats[0] != stdlats[1] && (stdlats[0] == lat || stdlats[1] == lat);
-      FAIL("fwd-nonfinite", "x=" + fmt(x) + " y=" + fmt(y) + " gamma=" + fmt(gam) + " k=" + fmt(k), res ? mc::Fields{{"defect", "albers-pole-parallel-prolate-forward-nan"}} : mc::Fields{});
+      // open finding: AlbersEqualArea with a pole as one of two different standard parallels: Forward AT that pole (the origin, rho0 = 0) returns NaN on many ellipsoids
+      const bool res = !O.conformal && U.pole_pair != 0 && lat == U.pole_pair;
+      FAIL("fwd-nonfinite", "x=" + fmt(x) + " y=" + fmt(y) + " gamma=" + fmt(gam) + " k=" + fmt(k), res ? mc::Fields{{"defect", "albers-pole-parallel-forward-nan-at-pole"}} : mc::Fields{});
       continue;
     }
 
@@ -512,7 +513,14 @@ int main(int argc, char** argv) {
         }
         std::vector<double> stds = {sp.l1, sp.l2};
         const bool pole_plus_parallel = albers && !sp.single && (std::fabs(sp.l1) == 90 || std::fabs(sp.l2) == 90) && sp.l1 != sp.l2;
-        if (pole_plus_parallel) for (Under& U : forms) {
+        const double the_pole = pole_plus_parallel ? (std::fabs(sp.l1) == 90 ? sp.l1 : sp.l2) : 0.0;
+        const bool near_polar_pair = pole_plus_parallel && std::fabs(sp.l1 - sp.l2) < 1;
+        if (pole_plus_parallel) for (Under& U : forms) U.pole_pair = the_pole;
+        if (near_polar_pair) for (Under& U : forms) {
+          // open finding: pole + a parallel within 1 deg of it: the cone constant is only accurate to ~1.5e-9 relative (2 cm at the far pole)
+          U.defect = "albers-pole-plus-near-polar-parallel-inaccurate"; U.defect_blanket = true;
+        }
+        if (pole_plus_parallel && !near_polar_pair) for (Under& U : forms) {
           // defect found by this check (repaired in /repo, kept as a recognised class): AlbersEqualArea::Init set polar = (cphi1 == 0) before ordering the parallels, so with
           // the pole given FIRST the second parallel was ignored and the azimuthal projection of that pole resulted
           const bool pole_first = U.name.find(std::string(",") + fmt(sp.l2) + "," + fmt(sp.l1) + ",k1") != std::string::npos ? std::fabs(sp.l2) == 90 : std::fabs(sp.l1) == 90;
@@ -533,7 +541,7 @@ int main(int argc, char** argv) {
           // origin latitude and central scale against the closed forms
           { mc::Ctx::Case cs(ctx);
             Q el = fabsq(Q(U.lat0) - O.phi0 / proj_cf::deg());
-            Q k0o = O.k(proj_cf::latr(O.phi0)); if (std::fabs(lat0d) == 90) k0o = k1;
+            Q k0o = O.k(proj_cf::latr(O.phi0)); if (std::fabs(lat0d) == 90) k0o = albers ? sqrtq(fabsq(O.n)) : Q(k1);     // Albers at an apex pole: k -> sqrt(|n|) (= k1 for the azimuthal case)
             Q ek = fabsq(Q(U.k0c) / k0o - 1);
             // documented: 4.5e-14 deg for |dlat| <= 160 and parallels not within ~0.0002 deg of a pole (sin/cos form); 7e-15 relative in the scale (LCC)
             Q tl = 2 * 4.5e-14Q, tk = 2 * 7e-15Q;
@@ -572,19 +580,21 @@ int main(int argc, char** argv) {
           // form, and (2) the lattice below is judged against the closed form carrying the library's own central scale.
           if (!south_defect_present) {
             Lat Ls = proj_cf::latd(ls); XY Ps = Os.fwd(Ls, Q(0)); Q ks_o = Os.k(Ls);
-            Q k0o = std::fabs(lat0d) == 90 ? Q(k1s) : Os.k(proj_cf::latr(Os.phi0));
+            Q k0o = std::fabs(lat0d) == 90 ? (albers ? sqrtq(fabsq(Os.n)) : Q(k1s)) : Os.k(proj_cf::latr(Os.phi0));
             const Q ULPS = fabsq(E.f) <= 0.0100001Q ? 16 : 64;
             Q size = std::max(std::max(fabsq(Ps.x), fabsq(Ps.y)), std::max(fabsq(Os.rho0), E.a)), eps_plane = ULPS * 1.1e-16Q * size;
             Q rapex = Os.conic ? hypotq(Ps.x, Os.rho0 - Ps.y) : HUGE_VALQ;
             Q tk0 = 4 * (1.6e-14Q + (20e-9Q * (E.a / WGS84_A) * (albers ? 1 / ks_o : ks_o) + eps_plane) / rapex);
             Q ek0 = fabsq(Q(U.k0c) / k0o - 1);
             ctx.worst("setscale.central-scale/tol", D(ek0 / tk0), U.name);
-            if (ek0 > tk0) { mc::Fields ff = {{"kind", "setscale-k0"}, {"proj", U.name}}; if (!albers && fabsq(Q(ks) / kold - 1) > 1e-15Q) ff.push_back({"defect", "lcc-setscale-stale-nrho0"});
+            if (ek0 > tk0) { mc::Fields ff = {{"kind", "setscale-k0"}, {"proj", U.name}}; if (near_polar_pair) ff.push_back({"defect", "albers-pole-plus-near-polar-parallel-inaccurate"}); else if (!albers && fabsq(Q(ks) / kold - 1) > 1e-15Q) ff.push_back({"defect", "lcc-setscale-stale-nrho0"});
               ctx.fail(U.name + " setscale-k0", U.name + ": CentralScale " + fx(U.k0c) + " closed form " + fq(k0o) + " tol " + fq(tk0), ff); }
             else if (ek0 > 0) { k1s = (double)(Q(k1s) * (Q(U.k0c) / k0o)); Os = albers ? make_albers_oracle(E, L1, L2, k1s) : make_lcc_oracle(E, L1, L2, k1s); }
           }
           Family f2 = fam;
           if (south_defect_present) { U.defect = "albers-south-forward-uses-minus-lat"; U.defect_blanket = true; }
+          U.pole_pair = the_pole;
+          if (near_polar_pair) { U.defect = "albers-pole-plus-near-polar-parallel-inaccurate"; U.defect_blanket = true; }
           const Q r = Q(ks) / kold;                                 // factor by which SetScale changes the scale
           if (!albers && fabsq(r - 1) > 1e-15Q && Os.n != 0 && fabsq(Os.n) != 1) {
             // defect found by this check (repaired in /repo, kept as a recognised class): LambertConformalConic::SetScale rescaled _scale and _k0 but not _nrho0 (= n rho0) and _drhomax: Forward then returned
